@@ -11,7 +11,7 @@ RULE = ('reg.run cases (see C01) whose operations are block writes: tables from 
         'current content, boundary values of each overlapped register\'s constraint split into words, NaN/inf/subnormal halves, random; repeated over evolving contents.  The caller buffer is an '
         'exact-size heap block of n words.  Observation per write: code and address, every word of every area, touched flags.')
 TRUSTED_BASE = C01.TRUSTED_BASE
-ASSUMPTIONS = C01.ASSUMPTIONS + ['address ranges do not wrap around 2^32', 'areas always have a read callback (block validation reads the current register content through it)']
+ASSUMPTIONS = C01.ASSUMPTIONS + ['requests that run past the last address (addr + n > 2^32) are generated only as block reads over tables whose first unmapped address is representable; wrapping block writes and iterations are not generated', 'areas always have a read callback (block validation reads the current register content through it)']
 EXHAUSTIVE = {'quick': False, 'thorough': False}
 NO_SHRINK = True
 TECHNIQUE = 'Coq proof (all-or-nothing and frame of block writes, failure classes and first failing address) + correspondence over every window position of the small-scope table family'
